@@ -342,6 +342,162 @@ class ReportHooks(QHooks):
         return [Outcome(ret=TOP)]
 
 
+def g1v(v):
+    return next(iter(v)) if v is not TOP and v is not None and len(v) == 1 else None
+
+
+def g1(E, k, d=None):
+    v = E.get(k)
+    return next(iter(v)) if v is not TOP and v is not None and len(v) == 1 else d
+
+
+class ConnectHooks(QHooks):
+    """qmail-remote main(): from the DNS answer to the first connection, over small MX geometries"""
+    SCEN = [(), (10,), (10, 20), (10, 10), (20, 10)]
+
+    def __init__(self, dns):
+        self.dns = dns          # DNS_* values of the tree
+        self.ends = []
+
+    def tracked_global(self, path):
+        return True
+
+    def precise_arith(self, path):
+        return True
+
+    def _nop(self, E, x, args):
+        return [Outcome(ret=TOP)]
+
+    prim_sig_pipeignore = prim_getcontrols = prim_addrmangle = prim_tcpto_err = prim_close = prim_now = prim_getpid = prim_scan_ulong = _nop
+    prim_outhost = prim_outsafe = prim_zero = prim_substdio_flush = _nop
+
+    def prim_chdir(self, E, x, args):
+        return [Outcome(ret=fs(0))]
+
+    def prim_stralloc_copys(self, E, x, args):
+        sa = g1v(args[0])
+        if isinstance(sa, tuple) and sa[0] == '&':
+            return [Outcome(ret=fs(1), sets={sa[1] + '.s': fs(('&', 'HOSTB[0]')), sa[1] + '.len': fs(1), 'HOSTB[0]': fs(ord('h'))})]
+        return [Outcome(ret=fs(1))]
+
+    def prim_constmap(self, E, x, args):
+        if g1(E, '$route') is not None:
+            return [Outcome(ret=fs(0))]
+        return [Outcome(ret=fs(0), sets={'$route': fs(0)}), Outcome(ret=fs(('&', 'RH[0]')), sets={'$route': fs(1), 'RH[0]': fs(ord('r')), 'RH[1]': fs(0)})]
+
+    def prim_str_chr(self, E, x, args):
+        return [Outcome(ret=fs(1))]
+
+    def prim_saa_readyplus(self, E, x, args):
+        return [Outcome(ret=fs(1))]
+
+    def prim_ipme_init(self, E, x, args):
+        return [Outcome(ret=fs(1))]
+
+    def _dns(self, E, x, args):
+        ipp = g1v(args[0])
+        if not (isinstance(ipp, tuple) and ipp[0] == '&'):
+            raise AnalysisBroken('qmail-remote main: dns_ip/dns_mxip not handed the address list object')
+        outs = [Outcome(ret=fs(self.dns['DNS_MEM']), sets={'$dns': fs('MEM')}), Outcome(ret=fs(self.dns['DNS_SOFT']), sets={'$dns': fs('SOFT')}),
+                Outcome(ret=fs(self.dns['DNS_HARD']), sets={'$dns': fs('HARD')})]
+        for r in (0, 1):
+            for k, sc in enumerate(self.SCEN):
+                st = {'$dns': fs(r), '$scen': fs(k), ipp[1] + '.len': fs(len(sc)), ipp[1] + '.ix': fs(('&', 'IX[0]'))}
+                for i, pf in enumerate(sc):
+                    st['IX[%d].pref' % i] = fs(pf)
+                outs.append(Outcome(ret=fs(r), sets=st, log='DNS: result %d, %d address(es) with preferences %s' % (r, len(sc), list(sc))))
+        return outs
+
+    prim_dns_ip = prim_dns_mxip = _dns
+
+    @staticmethod
+    def idx(v):
+        import re
+        if isinstance(v, tuple) and v[0] == '&':
+            m = re.match(r'^IX\[(\d+)\]', v[1])
+            if m:
+                return int(m.group(1))
+        return None
+
+    def _per_host(self, key, vals, argi):
+        def prim(E, x, args):
+            i = self.idx(g1v(args[argi]))
+            if i is None:
+                return [Outcome(ret=fs(v)) for v in vals]
+            prev = g1(E, '$%s:%d' % (key, i))
+            if prev is not None:
+                return [Outcome(ret=fs(prev))]
+            return [Outcome(ret=fs(v), sets={'$%s:%d' % (key, i): fs(v)}) for v in vals]
+        return prim
+
+    def on_call(self, E, x, args):
+        if x.callee == 'ipme_is':
+            return self._per_host('me', (0, 1), 0)(E, x, args)
+        if x.callee == 'tcpto':
+            return self._per_host('to', (0, 1), 0)(E, x, args)
+        if x.callee == 'timeoutconn':
+            i = self.idx(g1v(args[1]))
+            return [Outcome(ret=fs(0), sets={'$conn': fs(i)}), Outcome(ret=fs(-1), sets={'$fail:%s' % i: fs(1)})]
+        return super().on_call(E, x, args)
+
+    def prim_socket(self, E, x, args):
+        return [Outcome(ret=fs(-1), sets={'$sockfail': fs(1)}), Outcome(ret=fs(('fd', 'smtp')))]
+
+    def prim___errno_location(self, E, x, args):
+        return [Outcome(ret=fs(('&', '$errno')))]
+
+    def prim_out(self, E, x, args):
+        v = g1v(args[0])
+        if g1(E, '$verdict') is None and isinstance(v, tuple) and v[0] == 'str' and v[1]:
+            E.set('$verdict', fs(v[1][0]))
+        return [Outcome(ret=TOP)]
+
+    def end(self, E, what):
+        self.ends.append((what, {k: g1v(v) for k, v in E.store.items() if k.startswith('$')}, E.trace.list()))
+        return 'noreturn'
+
+    def prim_smtp(self, E, x, args):
+        return self.end(E, 'smtp')
+
+    def prim_zerodie(self, E, x, args):
+        return self.end(E, g1(E, '$verdict') or '?')
+
+    def prim__exit(self, E, x, args):
+        return self.end(E, g1(E, '$verdict') or '?')
+
+
+def connect_expected(st):
+    """documented verdict class for one explored scenario: 'Z', 'D' or ('smtp', i)"""
+    d = st.get('$dns')
+    if d in ('MEM', 'SOFT'):
+        return 'Z'
+    if d == 'HARD':
+        return 'D'
+    sc = ConnectHooks.SCEN[st['$scen']]
+    if not sc:
+        return 'Z' if d == 1 else 'D'
+    me = [sc[i] for i in range(len(sc)) if st.get('$me:%d' % i)]
+    if any(st.get('$me:%d' % i) is None for i in range(len(sc))):
+        return None
+    prefme = 300000 if st.get('$route') == 1 else min(me + [100000])
+    cands = [i for i in range(len(sc)) if sc[i] < prefme]
+    if not cands:
+        return 'D'
+    for i in cands:
+        if st.get('$to:%d' % i) is None:
+            return None
+        if st.get('$to:%d' % i):
+            continue
+        if st.get('$sockfail'):
+            return 'Z'
+        if st.get('$conn') == i:
+            return ('smtp', i)
+        if not st.get('$fail:%d' % i):
+            return None
+    return 'Z'
+
+
+
 def run(ctx):
     db, rep = ctx.db, ctx.report
     prog = db.program('qmail-remote')
@@ -468,5 +624,40 @@ def run(ctx):
         names = [s_[0] for s_ in seq]
         ok = eof and names[:4] == ['substdio_put', 'report', 'substdio_put', 'substdio_flush'] and seq[2][1] == '' and seq[2][2] == 1 and seq[0][2] == 1
         r5.check(ok, 'one-report-group-per-child-EOF', c.where, 'expected put(delnum) report() put(NUL) flush when the child\'s pipe is at end of file; found %s (eof-guard=%s)' % (seq[:5], eof))
+    # ---- 6 connect phase
+    r6 = rep.rule('C09.6-connect-phase', 'R-TABLE', 'qmail-remote main over MX geometries (0..2 addresses, equal/different preferences, own addresses, back-off table, socket/connect outcomes, smtproutes or not): DNS soft/memory trouble and connect trouble are temporary, DNS hard errors, no MX and "I am the best MX" are permanent; hosts are tried in order, skipping only backed-off ones')
+    prm = db.program('qmail-remote')
+    mainr = prm.fn('main', 'qmail-remote.c')
+    du = db.unit('qmail-remote.c')
+    dns = {k: du.macro_int(k) for k in ('DNS_MEM', 'DNS_SOFT', 'DNS_HARD')}
+    if None in dns.values():
+        raise AnalysisBroken('DNS_* constants not found')
+    CHk = ConnectHooks(dns)
+    e6 = Engine(db, prm, CHk, max_states=2000000)
+    fid6 = e6.frame_id(mainr)
+    e6.run(mainr, {'%s::%s' % (fid6, mainr.params[0]): fs(4), '%s::%s' % (fid6, mainr.params[1]): fs(('&', 'ARGV[0]')),
+                   'ARGV[0]': fs(('&', 'A0[0]')), 'ARGV[1]': fs(('&', 'A1[0]')), 'ARGV[2]': fs(('&', 'A2[0]')), 'ARGV[3]': fs(('&', 'A3[0]')), 'ARGV[4]': fs(0)})
+    rep.count_states(e6.states, e6.transitions)
+    bad6 = None
+    seen6 = {}
+    for what, st_, tr in CHk.ends:
+        if '$dns' not in st_:
+            continue
+        exp = connect_expected(st_)
+        got = ('smtp', st_.get('$conn')) if what == 'smtp' else what
+        seen6[str(exp)] = seen6.get(str(exp), 0) + 1
+        if exp is None or got != exp:
+            if bad6 is None:
+                sc = ConnectHooks.SCEN[st_['$scen']] if '$scen' in st_ else None
+                bad6 = ('DNS %s, preferences %s, own addresses %s, backed-off %s, route=%s: qmail-remote ends with %s, documented %s' %
+                        (st_.get('$dns'), list(sc) if sc is not None else '-', [i for i in range(len(sc or ())) if st_.get('$me:%d' % i)],
+                         [i for i in range(len(sc or ())) if st_.get('$to:%d' % i)], st_.get('$route'), got, exp), tr)
+    if bad6 is None and (len(CHk.ends) < 50 or not {'Z', 'D'} <= set(seen6) or not any(k.startswith("('smtp'") for k in seen6)):
+        raise AnalysisBroken('qmail-remote main: connect phase not explored (%d ends, %s)' % (len(CHk.ends), seen6))
+    r6.check(bad6 is None, 'verdict-class-per-scenario', 'qmail-remote.c:main', bad6[0] if bad6 else '%d scenario ends: %s' % (len(CHk.ends), seen6), bad6[1] if bad6 else None)
+    r6.note(scenario_ends=len(CHk.ends))
+    r6.expect_min(1)
+    rep.exhaustive_rules.append('C09.6-connect-phase')
+
     rep.assume('reply-code classes are represented by %s; smtp() compares the code only with constants' % REPS,
                'substdio_puts on smtpto sends the literal command', 'plain char is signed')
